@@ -38,17 +38,25 @@ func kernel(_ []string) error {
 		v := verdict{ID: n, OK: true}
 
 		if k.Prompt != nil {
-			conc := []byte(concretise(k.S, nil))
-			// what the channel read loop does to a chunk
-			nb := bytes.ReplaceAll(conc, []byte("\r"), nil)
-			if bytes.Contains(nb, []byte("\x1b")) {
-				nb = util.StripANSI(nb)
+			// every escape sequence of the catalogue in turn for the strings that contain one
+			variants := 1
+			if bytes.ContainsRune([]byte(k.S), 'E') {
+				variants = len(escapes)
 			}
 
-			if string(nb) != concretise(k.Norm, nil) {
-				fail(&v, "C01:kernel:Norm", "Norm(%q) = %q in the specification, the read loop's normalisation gives %q", k.S, k.Norm, abstract(string(nb)))
-			} else if pat.Match(nb) != *k.Prompt {
-				fail(&v, "C01:kernel:HasPrompt", "HasPrompt(Norm(%q)) = %v in the specification, the default prompt pattern says %v", k.S, *k.Prompt, pat.Match(nb))
+			for e := 0; e < variants && v.OK; e++ {
+				conc := []byte(concretiseEsc(k.S, e))
+				// what the channel read loop does to a chunk
+				nb := bytes.ReplaceAll(conc, []byte("\r"), nil)
+				if bytes.Contains(nb, []byte("\x1b")) {
+					nb = util.StripANSI(nb)
+				}
+
+				if string(nb) != concretise(k.Norm, nil) {
+					fail(&v, "C01:kernel:Norm", "Norm(%q) = %q in the specification, the read loop's normalisation of %q gives %q", k.S, k.Norm, conc, nb)
+				} else if pat.Match(nb) != *k.Prompt {
+					fail(&v, "C01:kernel:HasPrompt", "HasPrompt(Norm(%q)) = %v in the specification, the default prompt pattern says %v", k.S, *k.Prompt, pat.Match(nb))
+				}
 			}
 		} else if k.Fuzzy != nil {
 			in, out := []byte(concretise(k.S, nil)), []byte(concretise(k.T, nil))
